@@ -17,6 +17,7 @@ class Evidence:
         c['obligations'] = proof['obligations']
         c['discharged'] = proof['discharged']
         c['undecided'] = proof['undecided']
+        c['undecided_list'] = proof.get('undecided_list', [])[:40]
         c['refuted'] = len(proof['refuted'])
         c['checker_cmd'] = proof['checker_cmd']
         c['trusted_base'] = proof['trusted_base']
